@@ -29,6 +29,14 @@ func VerifE1New(vc *VerifCtx, r *VerifRng, p VerifE1Params) (*VerifE1, error) {
 	return verifE1New(vc, r, p)
 }
 
+// VerifE1NewOpts is VerifE1New with channeldb option modifiers applied to both
+// parties' databases (C04: channeldb.OptionNoRevLogAmtData).
+func VerifE1NewOpts(vc *VerifCtx, r *VerifRng, p VerifE1Params,
+	dbMods ...channeldb.OptionModifier) (*VerifE1, error) {
+
+	return verifE1New(vc, r, p, dbMods...)
+}
+
 // VerifHtlcInfo is the ledger view of one HTLC of a schedule.
 type VerifHtlcInfo struct {
 	Offerer    int // 0 = A, 1 = B
